@@ -61,6 +61,9 @@ void vp_harness(void) {
 #ifdef VP_WITH_DATA
 	uint8_t in_dlen; VP_IN(uint8_t, in_dlen);
 	__CPROVER_assume((unsigned)in_dlen + asz + 3u <= 128u);  /* VP_BMWD_PRE: length byte <= 127 */
+#ifdef VP_MAX_DLEN
+	__CPROVER_assume(in_dlen <= VP_MAX_DLEN);               /* bounded fall-back variant */
+#endif
 	uint8_t *data = malloc(in_dlen);
 	__CPROVER_assume(data != NULL);
 	unsigned dlen = in_dlen;
